@@ -24,7 +24,10 @@ MANIFEST = {
             "nothing on self') with bridge lemmas, and by exact differential correspondence of op sequences on the real samplers.",
     "note": "Trusted: Lean kernel (+propext, Classical.choice, Quot.sound), the AST translator, harness-side patching of "
             "communication.get_rank/get_world_size and recording of random.choices. math.ceil(n / bs) is modelled as the exact "
-            "integer ceiling (equal for n, bs < 2^53; probed). Volumes are assumed non-empty (>= 1 slice) as in the property's "
+            "integer ceiling; theorems float_ceil_* reduce the equality to IEEE-754 correct rounding for all n < 2^52 (probed "
+            "adversarially). No call site of build_batch_sampler passes a volume limit (translated table); DistributedSampler has "
+            "no set_epoch, one generator seeded once (table); the concat member is drawn with weights = lengths (table + 6-sigma "
+            "test in the thorough tier). Volumes are assumed non-empty (>= 1 slice) as in the property's "
             "quantifier: an empty volume in the middle of the list does make later batches mix volumes (theorem "
             "bvs_empty_volume_mixes documents it). The permutation stream of torch.randperm is an input of the model.",
     "technique": "Lean 4 proof (list induction with loop invariant, omega) + AST translation bridge + differential correspondence "
@@ -39,7 +42,8 @@ TRUSTED = [
     "DistributedSequentialSampler.__init__ (filename slicing, dict building) is hand-modelled; tied by correspondence",
 ]
 ASSUMPTIONS = [
-    "math.ceil(n / bs) equals the integer ceiling for the sizes that occur (true for n, bs < 2^53; probed for n <= 600, bs <= 32)",
+    "binary64 division is correctly rounded (IEEE 754): with that, C13.float_ceil_witness_le / _representable / _of_sandwich prove "
+    "math.ceil(n / bs) = integer ceiling for all n < 2^52 (probed exhaustively for n <= 600, bs <= 32 and adversarially up to 2^52)",
     "every volume has at least one slice (property quantifier: 1..9 slices)",
     "torch.randperm / torch.arange epochs are supplied to the model as data; that each is a permutation is checked by the oracle",
 ]
@@ -296,6 +300,9 @@ def correspondence(ctx: Ctx):
     for _ in range(ctx.budget(40, 400)):
         sizes = [rng.randint(1, 7) for _ in range(rng.randint(1, 4))]
         bs = rng.randint(1, 5)
+        if rng.random() < 0.3:                       # a member smaller than the batch: its batches span several epochs
+            sizes[rng.randrange(len(sizes))] = rng.choice([1, 2])
+            bs = rng.randint(3, 6)
         seed = rng.randrange(2 ** 20)
         world = rng.choice([1, 1, 2, 3])
         rank = rng.randrange(world)
@@ -325,7 +332,7 @@ def correspondence(ctx: Ctx):
             ans = "err " + err_name(e)
             state["draws"], state["streams"] = [], [[] for _ in sizes]
         yield {"line": line("concat", sizes, [bs], state["draws"], *state["streams"]), "impl": (lambda ans=ans: ans),
-               "nontrivial": len(sizes) >= 2 and not bad, "bucket": "concat/" + ("bad" if bad else f"members={len(sizes)}")}
+               "nontrivial": len(sizes) >= 2 and not bad, "bucket": "concat/" + ("bad" if bad else "member<bs" if min(sizes) < bs else f"members={len(sizes)}")}
 
     # ---- DistributedSampler: rank-strided stream over the epoch permutations
     for _ in range(ctx.budget(40, 400)):
@@ -350,6 +357,28 @@ def correspondence(ctx: Ctx):
                 return ("ok " + ints(itertools.islice(iter(s), count))).strip()
         yield {"line": line("dist", [size, rank, world, count], *perms), "impl": _catch(impl),
                "nontrivial": size >= 2 and world >= 2, "bucket": "dist/" + ("bad" if bad else "shuffle" if shuffle else "arange")}
+    # seed=None: the seed comes from communication.shared_random_seed() = np.random.randint(2**31) (one process)
+    import numpy as np
+    for _ in range(ctx.budget(6, 40)):
+        size, count, k = rng.randint(2, 8), rng.randint(2, 20), rng.randrange(2 ** 20)
+        st = np.random.get_state()
+        np.random.seed(k)
+        shared = int(np.random.randint(2 ** 31))
+        np.random.set_state(st)
+        g = torch.Generator()
+        g.manual_seed(shared)
+        perms = [[int(i) for i in torch.randperm(size, generator=g)] for _ in range(count // size + 1)]
+
+        def impl(size=size, count=count, k=k):
+            st = np.random.get_state()
+            try:
+                np.random.seed(k)
+                s = DistributedSampler(size, shuffle=True, seed=None)
+            finally:
+                np.random.set_state(st)
+            return ("ok " + ints(itertools.islice(iter(s), count))).strip()
+        yield {"line": line("dist", [size, 0, 1, count], *perms), "impl": _catch(impl), "nontrivial": True,
+               "bucket": "dist/seed=None"}
 
 
 # --------------------------------------------------------------------------------------------------
@@ -436,6 +465,15 @@ def oracle(ctx: Ctx, deep: bool = False):
             if math.ceil(n / bs) != -(-n // bs):
                 yield Violation("float-ceil", f"math.ceil({n}/{bs}) != integer ceiling", {"op": "ceil", "n": n, "bs": bs})
     ctx.count(("ceil", 600, 32), True, bucket="oracle/float-ceil")
+    # adversarial: n = (q-1)*bs + 1 (smallest excess over a multiple) and n = q*bs, up to n < 2**52 — the range for which
+    # C13.float_ceil_* prove that correct rounding implies equality with the integer ceiling
+    for _ in range(20000 if big else 4000):
+        bs = rng.randint(1, 2 ** rng.randint(1, 30))
+        q = rng.randint(1, max(1, (2 ** 52 - 1) // bs))
+        for n in ((q - 1) * bs + 1, q * bs, (q - 1) * bs + rng.randint(1, bs)):
+            if n < 2 ** 52 and math.ceil(n / bs) != -(-n // bs):
+                yield Violation("float-ceil", f"math.ceil({n}/{bs}) != integer ceiling", {"op": "ceil", "n": n, "bs": bs})
+    ctx.count(("ceil-adversarial", 2 ** 52), True, bucket="oracle/float-ceil")
     # (1) sequential + batch volume samplers
     cfgs = []
     if big:
@@ -457,6 +495,20 @@ def oracle(ctx: Ctx, deep: bool = False):
             seen.add(key)
             yield Violation(key, what, {"op": "config", "layout": layout, "world": world, "bs": bs, "limit": limit,
                                         "key": key, "observed": obs})
+    # (1b) OUTSIDE the quantifier (volumes have 1..9 slices): a zero-slice volume in the middle, through the real samplers.
+    # Recorded as a note (key empty-volume-after-filter), never a violation; C14's evidence has the H5SliceData run.
+    try:
+        from direct.data.samplers import BatchVolumeSampler
+        note = {"layout": [4, 0, 4, 4]}
+        for bs_ in (3, 4, 8):
+            b = BatchVolumeSampler(_make_seq([4, 0, 4, 4], 1, 0, 0), batch_size=bs_)
+            note[f"batch_size={bs_}"] = {"batches": [list(map(int, x)) for x in b], "len": len(b)}
+        ctx.notes.append({"empty-volume-after-filter": note, "status": (
+            "NOTE, outside C13's quantifier (volumes with 1..9 slices): after an empty volume next_value stalls, later batches "
+            "are cut by batch size only and can mix volumes; len() can differ from the number of batches "
+            "(Lean witness C13.bvs_empty_volume_mixes; every theorem assumes non-empty volumes)")})
+    except Exception as e:  # noqa: BLE001
+        ctx.notes.append({"empty-volume-after-filter": f"probe failed: {err_name(e)}"})
     # (2) concat sampler: every batch inside one member, full
     for _ in range(ctx.budget(40, 400)):
         sizes = [rng.randint(1, 9) for _ in range(rng.randint(1, 4))]
@@ -467,6 +519,27 @@ def oracle(ctx: Ctx, deep: bool = False):
         if bad is not None:
             yield Violation("concat-batch-mixed-members", f"training batch {bad} is not one full batch of a single member",
                             {"op": "concat", "sizes": sizes, "bs": bs, "seed": seed, "world": world, "rank": rank, "observed": bad})
+    # (2b) the member is drawn with probability proportional to its size (6-sigma band; thorough / deep only)
+    if big:
+        import random as _random
+        for sizes in ([1, 3, 6], [2, 2], [5, 1, 1, 3]):
+            ctx.count(("concat-weights", tuple(sizes)), True, bucket="oracle/concat-weights")
+            st = _random.getstate()
+            try:
+                _random.seed(rng.randrange(2 ** 30))
+                with patched_comm(0, 1), recorded_choices() as rec:
+                    s = ConcatDatasetBatchSampler([Sized(n) for n in sizes], batch_size=2, seed=1)
+                    for _ in range(4000):
+                        next(s)
+            finally:
+                _random.setstate(st)
+            tot = sum(sizes)
+            for m, n in enumerate(sizes):
+                p = n / tot
+                dev = abs(rec.draws.count(m) - 4000 * p) / math.sqrt(4000 * p * (1 - p)) if 0 < p < 1 else 0
+                if dev > 6:
+                    yield Violation("concat-weights", f"member {m} of sizes {sizes} drawn {rec.draws.count(m)}/4000 times",
+                                    {"op": "concat-weights", "sizes": sizes, "member": m, "count": rec.draws.count(m)})
     # (3) distributed sampler: rank streams partition the infinite stream; epochs are permutations
     for _ in range(ctx.budget(30, 300)):
         size, world, seed, shuffle = rng.randint(1, 9), rng.randint(1, 5), rng.randrange(2 ** 20), rng.random() < 0.7
